@@ -97,6 +97,12 @@ func c09Run(ref treeRef) (*eng.Fail, bool) {
 	if s := foldable(res); s != "" {
 		return &eng.Fail{Sig: "ConstFold foldable-remains", What: fmt.Sprintf("ConstFold(%s) = %s still contains %s", before, folded, s), Case: ref}, false
 	}
+	// folding the SAME input object a second time must give the same result (folding must not
+	// depend on, or leave behind, any state in the shared constants of the tree)
+	var second expr.Expr
+	if p, _ := eng.Catch(func() { second = exprtransform.ConstFold(e) }); p == nil && ir.Show(second) != folded {
+		return &eng.Fail{Sig: "ConstFold not-repeatable", What: fmt.Sprintf("ConstFold(%s) = %s, but folding the same tree again gives %s", before, folded, ir.Show(second)), Case: ref}, false
+	}
 	var again expr.Expr
 	p, stack = eng.Catch(func() { again = exprtransform.ConstFold(res) })
 	if p != nil {
